@@ -25,6 +25,7 @@ from vlib import driver, fexpr
 from . import c09lib as L
 
 PROPS = ["MxlVerif.Props.C09"]
+MCSCAN_MODEL = True  # the driver's "mcscan" kind (Model/C09Par.lean::mcScan)
 TOL = 1e-9
 KINDS = ("ss", "tc", "proto", "ptc")
 
@@ -738,14 +739,51 @@ def canon_model(resp, template, case=None):
     return res
 
 
+def model_request_mcscan(case, mode, rng_seed=0):
+    r = random.Random(rng_seed)
+    ids = label_ids(case)
+    return {"op": "c09", "kind": "mcscan", "content": case["content"], "y0": case["y0"], "cfg": case["cfg"],
+            "rows": [[ids[l], [[c, v] for c, v in zip(case["cols"], row)]] for l, row in case["rows"]],
+            "inner": [[i, [[c, v] for c, v in zip(case["inner"]["cols"], row)]] for i, row in enumerate(case["inner"]["rows"])],
+            "n": mode[1], "assign": [r.randrange(mode[1]) for _ in case["rows"]]}
+
+
+def canon_model_mcscan(resp, S, case):
+    """driver answer -> {"vars": ..., "flux": ..., "caller": ...} with S's column selection; NaN rows by shape"""
+    if "err" in resp:
+        return {"err": [resp["err"][0]]}
+    ok = resp["ok"]
+    back = {i: l for l, i in label_ids(case).items()}
+    out = {"vars": [], "flux": []}
+    for which in ("vars", "flux"):
+        for idx, (lab, inner_vals, view) in enumerate(ok["rows"]):
+            key = [_lab(back.get(int(lab), int(lab)))] + [L.qf(x) for x in inner_vals]
+            tmpl = S[which][idx][1] if idx < len(S.get(which, [])) else []
+            names = [n for n, _ in tmpl]
+            rows = [r for seg in view["segs"] for r in seg]
+            if view["nan"] or not rows:
+                out[which].append([key, sorted([n, "nan"] for n in names)])
+            else:
+                a = dict(rows[-1][1])
+                out[which].append([key, sorted([n, (L.qf(a[n]) if n in a else "missing")] for n in names)])
+
+    def st(j):
+        if "ok" in j:
+            return sorted([k, L.qf(v)] for k, v in j["ok"])
+        return {"err": j["err"][0]}
+
+    out["caller"] = {"pars": st(ok["caller"]["pars"]), "init": st(ok["caller"]["init"])}
+    return out
+
+
 def case_kind_ss(key):
     return isinstance(key, list)
 
 
 def reduce_nan(obs):
     """compare failing rows with the model by shape only (the model carries no NaN arithmetic)"""
-    if "err" in obs:
-        return obs
+    if "err" in obs or "res" not in obs:
+        return obs  # mc.scan_steady_state observations carry their failing rows by shape already
     out = []
     for key, e in obs["res"]:
         out.append([key, {"nan": True, "t": e["t"]} if e["nan"] else e])
@@ -880,14 +918,20 @@ def evaluate(ctx, cases_modes):
     reqs, where = [], []
     for ci, ((case, modes), (S, Rs)) in enumerate(zip(jobs, outs)):
         for mi, mode in enumerate(modes):
-            if ctx.driver_ok and case["cfg"] is not None and ("res" in S or (case.get("cache") and "err" in S)) \
+            if ctx.driver_ok and case["cfg"] is not None and case["kind"] == "mcscan" and "vars" in S and MCSCAN_MODEL:
+                reqs.append(model_request_mcscan(case, mode, rng_seed=ci * 31 + mi))
+                where.append((ci, mi))
+            elif ctx.driver_ok and case["cfg"] is not None and ("res" in S or (case.get("cache") and "err" in S)) \
                     and case["kind"] != "mcscan" and case.get("zerodiv_rows") is None:
                 reqs.append(model_request(case, mode, rng_seed=ci * 31 + mi))
                 where.append((ci, mi))
     answers = driver.call_batch(reqs, timeout=300.0) if reqs else []
     Ms = [[None] * len(modes) for _, modes in jobs]
     for (ci, mi), a in zip(where, answers):
-        Ms[ci][mi] = canon_model(a, outs[ci][0], jobs[ci][0])
+        if jobs[ci][0]["kind"] == "mcscan":
+            Ms[ci][mi] = canon_model_mcscan(a, outs[ci][0], jobs[ci][0])
+        else:
+            Ms[ci][mi] = canon_model(a, outs[ci][0], jobs[ci][0])
     return [(S, Rs, Ms[ci]) for ci, (S, Rs) in enumerate(outs)]
 
 
